@@ -382,6 +382,112 @@ def run(chk: Check, eng: Engine) -> None:
             else:
                 chk.ok("R14-d", where, pm_.line, f"values tested by the decisions are defined alike on both sides: {[n[1] for n in common]}")
 
+    chk.rule("R14-e", "both lexers close the open blocks at the end of the input in the same way: an unconditional block at the start of nextToken() with the same condition and the same "
+             "emitted tokens (drop queued EOFs, NEWLINE, one DEDENT per open block, EOF)", floor=1)
+    flush_rule(chk, eng, base_cls, ctxt, list_attrs, strip_self)
+
+
+def flush_rule(chk: Check, eng: Engine, base_cls, ctxt: str, list_attrs: set, strip_self) -> None:
+    """R14-e.  At the end of the input both lexers must close the open blocks: `nextToken()` starts - before it asks the generated lexer for a
+    token, and not nested in any other condition - with `if LA(1) == EOF and indents: <drop queued EOFs> NEWLINE, DEDENT for every open block, EOF`.
+    The rest of the two functions is organised differently (the C++ side queues, the Python side pops), so only this block is compared: its
+    position, its condition, and the tokens it emits in order."""
+    from .. import cppmini as cm
+    pm_ = base_cls.methods.get("nextToken")
+    if pm_ is None:
+        raise AnalysisError("FandangoLexerBase.nextToken not found on the Python side")
+    try:
+        cst = cm.parse_function(ctxt, "FandangoLexerBase::nextToken")
+    except cm.CppError as e:
+        raise AnalysisError(f"FandangoLexerBase::nextToken: the C++ reader does not understand the function ({e})")
+
+    def mentions(x, words) -> bool:
+        t = repr(x).lower()
+        return all(w in t for w in words)
+
+    # ---- C++ side
+    def cpp_emits(stmts) -> list:
+        out = []
+        for st in stmts:
+            if st[0] == "expr" and st[1][0] == "call" and cm.fold(st[1][2]) == "emittoken":
+                arg = st[1][3][0] if st[1][3] else None
+                ty = None
+                if arg and arg[0] == "call" and cm.fold(arg[2]) == "commontoken" and arg[3] and arg[3][0][0] == "name":
+                    ty = arg[3][0][1].split("::")[-1]
+                out.append(("emit", ty))
+            elif st[0] == "while":
+                out.append(("while", strip_self(cm._truth(cm.canon_cpp(st[1], list_attrs), list_attrs)), tuple(cpp_emits(list(st[2])))))
+            elif st[0] == "opaque" and mentions(st, ["erase", "eof"]):
+                out.append(("drop-queued-eof",))
+        return out
+
+    c_first_lexer = next((i for i, st in enumerate(cst) if mentions(st, ["lexer::nexttoken"])), None)
+    c_flush = next((i for i, st in enumerate(cst) if st[0] == "if" and mentions(st[1], ["eof"]) and mentions(st[1], ["indents"])), None)
+
+    # ---- Python side
+    body = [st for st in pm_.node.body if not (isinstance(st, ast.Expr) and isinstance(st.value, ast.Constant))]  # type: ignore[attr-defined]
+
+    def token_type(call: ast.AST) -> Optional[str]:
+        if isinstance(call, ast.Call) and isinstance(call.func, ast.Attribute):
+            if call.func.attr == "commonToken" and call.args:
+                return norm(call.args[0]).split(".")[-1]
+            h = base_cls.methods.get(call.func.attr)
+            if h is not None and not call.args:  # createDedent()
+                for r in ast.walk(h.node):
+                    if isinstance(r, ast.Return) and r.value is not None:
+                        return token_type(r.value)
+        return None
+
+    def py_emits(stmts) -> list:
+        out = []
+        for st in stmts:
+            if isinstance(st, ast.Expr) and isinstance(st.value, ast.Call) and isinstance(st.value.func, ast.Attribute) and st.value.func.attr == "emitToken":
+                out.append(("emit", token_type(st.value.args[0]) if st.value.args else None))
+            elif isinstance(st, ast.While):
+                out.append(("while", strip_self(cm._truth(cm.canon_py(st.test, list_attrs), list_attrs)), tuple(py_emits(st.body))))
+            elif isinstance(st, ast.Assign) and "tokens" in norm(st.targets[0]) and "EOF" in norm(st.value) and any(isinstance(x, (ast.ListComp, ast.GeneratorExp)) or
+                                                                                                                  (isinstance(x, ast.Call) and norm(x.func).endswith("filter")) for x in ast.walk(st.value)):
+                out.append(("drop-queued-eof",))
+        return out
+
+    p_first_lexer = next((i for i, st in enumerate(body) if any(isinstance(x, ast.Call) and isinstance(x.func, ast.Attribute) and x.func.attr == "nextToken" and norm(x.func.value).startswith("super")
+                                                                for x in ast.walk(st))), None)
+    p_flush = next((i for i, st in enumerate(body) if isinstance(st, ast.If) and "EOF" in norm(st.test) and "indents" in norm(st.test)), None)
+    where = "nextToken / FandangoLexerBase::nextToken"
+    file = f"{PY_DIR}/FandangoLexerBase.py"
+    if c_flush is None or c_first_lexer is None:
+        raise AnalysisError("FandangoLexerBase::nextToken (C++): end-of-input block or the call of Lexer::nextToken not found at statement level")
+    if p_first_lexer is None:
+        raise AnalysisError("FandangoLexerBase.nextToken (Python): the call of super().nextToken() was not found")
+    if p_flush is None:
+        chk.bad("R14-e", file, pm_.line, where, "the Python nextToken() has no unconditional end-of-input block (`if LA(1) == EOF and indents: ...` at statement level); the C++ side has one",
+                "a spec whose last line is inside an open block is closed by the C++ lexer (NEWLINE, DEDENTs, EOF) and left open by the Python lexer: one front end accepts it, the other reports a syntax error",
+                keyparts="flush-missing-or-nested")
+        return
+    problems = []
+    if (c_flush < c_first_lexer) != (p_flush < p_first_lexer):
+        problems.append("the block runs before the generated lexer is asked on one side only")
+    def unqualify(c):
+        """`FandangoParser.EOF` (Python attribute) and `FandangoParser::EOF` (C++ qualified name, folded to its last part) are the same constant."""
+        if isinstance(c, tuple):
+            if len(c) == 3 and c[0] == "attr" and c[1] == ("name", "fandangoparser"):
+                return ("name", c[2])
+            return tuple(unqualify(x) for x in c)
+        return c
+
+    cc = unqualify(strip_self(cm._truth(cm.canon_cpp(cst[c_flush][1], list_attrs), list_attrs)))
+    pc = unqualify(strip_self(cm._truth(cm.canon_py(body[p_flush].test, list_attrs), list_attrs)))
+    if cc != pc:
+        problems.append(f"conditions differ: C++ `{cm.show(cc)}` vs Python `{cm.show(pc)}`")
+    ce, pe = cpp_emits(list(cst[c_flush][2])), py_emits(body[p_flush].body)
+    if ce != pe:
+        problems.append(f"emitted tokens differ: C++ {ce} vs Python {pe}")
+    if problems:
+        chk.bad("R14-e", file, body[p_flush].lineno, where, "end-of-input handling differs: " + "; ".join(problems),
+                "for a spec that ends inside an open block (no final line break, trailing blanks) the two front ends emit different NEWLINE / DEDENT / EOF tokens", keyparts="flush-differs")
+    else:
+        chk.ok("R14-e", where, body[p_flush].lineno, f"both sides start with `if {cm.show(pc)}` and emit {pe}")
+
 
 # ------------------------------------------------------------------ self-test variants
 from ..mutants import M  # noqa: E402
@@ -392,6 +498,9 @@ _CPH = "src/fandango/language/cpp_parser/FandangoLexerBase.h"
 _TOK = "src/fandango/language/cpp_parser/FandangoParser.tokens"
 _LG4 = "language/FandangoLexer.g4"
 MUTANTS = [
+    M("python-flush-keeps-queued-eof", _PYB, "            self.tokens = [\n                token for token in self.tokens if token.type != FandangoParser.EOF\n            ]\n", "", "R14-e"),
+    M("python-flush-without-newline", _PYB, "            self.emitToken(self.commonToken(FandangoParser.NEWLINE, \"\\n\"))\n", "", "R14-e"),
+    M("python-flush-nested-under-empty-queue", _PYB, "        if self._input.LA(1) == FandangoParser.EOF and len(self.indents) != 0:\n", "        if len(self.tokens) == 0 and self._input.LA(1) == FandangoParser.EOF and len(self.indents) != 0:\n", "R14-e"),
     M("python-bracket-depth-by-truthiness", _PYB, "        if self.opened > 0 or (next_next != -1 and next_ in (10, 13, 35)):\n", "        if self.opened or (next_next != -1 and next_ in (10, 13, 35)):\n", "R14-d"),
     M("python-tab-is-eight-columns", _PYB, "            if c == \"\\t\":\n                count += 8 - count % 8\n", "            if c == \"\\t\":\n                count += 8\n", "R14-d"),
     M("cpp-dedent-while-geq", _CPB, "            while (!indents.empty() && indents.back() > indent) {\n", "            while (!indents.empty() && indents.back() >= indent) {\n", "R14-d"),
